@@ -2,6 +2,7 @@
 package main
 
 import (
+	"encoding/binary"
 	"encoding/json"
 	"fmt"
 	"os"
@@ -19,10 +20,11 @@ type Op struct {
 	A    int    `json:"a,omitempty"`
 }
 type Case struct {
-	ID    int64 `json:"id"`
-	Cap   int   `json:"cap"`
-	Abaco bool  `json:"abaco,omitempty"` // drive discards through dastard's AbacoRing device (packet size 8192)
-	Ops   []Op  `json:"ops"`
+	ID    int64  `json:"id"`
+	Cap   int    `json:"cap"`
+	Abaco bool   `json:"abaco,omitempty"` // drive discards through dastard's AbacoRing device (packet size 8192)
+	Base  uint64 `json:"base,omitempty"`  // both free-running pointers are set to this value right after Create
+	Ops   []Op   `json:"ops"`
 }
 
 // bytesTerm renders a byte string, compactly when it follows the pattern (a+i) mod 251.
@@ -69,6 +71,9 @@ func genCase(r *lib.Rng, id int64, tier string) Case {
 		}
 	}
 	c := Case{ID: id, Cap: cap}
+	if r.Chance(1, 6) {
+		c.Base = r.PickU64([]uint64{1, 63, 1 << 31, 1<<32 - 1, 1 << 32, 1<<32 + 1, 3<<32 + 12345, 1 << 40, 1<<62 + 7})
+	}
 	next := 0
 	malformed := r.Chance(1, 10)
 	for i := 0; i < nops; i++ {
@@ -139,6 +144,11 @@ func corpus() []Case {
 		// AbacoRing: stale data that end inside a packet must be discarded only up to a packet boundary
 		{Cap: 8192*3 + 5, Abaco: true, Ops: []Op{{Op: "WP", A: 3, N: 5000}, {Op: "ST"}, {Op: "WP", A: 100, N: 8000}, {Op: "ST"}, {Op: "RM", N: 8192}, {Op: "RA"}}},
 		{Cap: 8192 * 4, Abaco: true, Ops: []Op{{Op: "WP", A: 0, N: 20000}, {Op: "ST"}, {Op: "RA"}, {Op: "WP", A: 5, N: 13000}, {Op: "ST"}, {Op: "RM", N: 8192}}},
+		// AbacoRing.ReadAllPackets takes whole packets only: 1 1/3 packets, poll, complete the packet, add one, poll
+		{Cap: 8192 * 4, Abaco: true, Ops: []Op{{Op: "ST"}, {Op: "WP", A: 0, N: 10922}, {Op: "RP"}, {Op: "WP", A: 129, N: 5462}, {Op: "WP", A: 7, N: 8192}, {Op: "RP"}, {Op: "RA"}}},
+		// free-running pointers beyond 2^32 with strides that are not powers of two
+		{Cap: 64, Base: 1 << 32, Ops: []Op{{Op: "W", D: b(40, 0)}, {Op: "R", N: 3}, {Op: "DS", N: 7}, {Op: "RA"}, {Op: "W", D: b(50, 40)}, {Op: "DS", N: 12}, {Op: "RM", N: 5}, {Op: "RA"}}},
+		{Cap: 33, Base: 5*(1<<32) + 1792, Ops: []Op{{Op: "W", D: b(30, 0)}, {Op: "DS", N: 9}, {Op: "RA"}, {Op: "W", D: b(20, 30)}, {Op: "DS", N: 1000}, {Op: "RA"}}},
 	}
 }
 
@@ -174,7 +184,7 @@ func gen(seed uint64, tier string) []interface{} {
 			case 3:
 				c.Ops = append(c.Ops, Op{Op: "ST"})
 			case 4:
-				c.Ops = append(c.Ops, Op{Op: "RM", N: 8192})
+				c.Ops = append(c.Ops, Op{Op: q.Pick2("RM", "RP"), N: 8192})
 			default:
 				c.Ops = append(c.Ops, Op{Op: q.Pick2("RA", "R"), N: int64(q.Range(1, 9000))})
 			}
@@ -198,8 +208,13 @@ func runCase(c Case) lib.Result {
 	res := lib.Result{ID: c.ID, Hash: lib.Hash(struct {
 		C int
 		A bool
+		B uint64
 		O []Op
-	}{c.Cap, c.Abaco, c.Ops})}
+	}{c.Cap, c.Abaco, c.Base, c.Ops})}
+	if c.Abaco && (len(c.Ops) == 0 || c.Ops[0].Op != "ST") {
+		// opening the device (start) discards stale data: make that an explicit first operation
+		c.Ops = append([]Op{{Op: "ST"}}, c.Ops...)
+	}
 	name := fmt.Sprintf("verif_c18_%d_%d", os.Getpid(), c.ID)
 	rawName, descName := name+"_raw", name+"_desc"
 	ringnum := 0
@@ -219,6 +234,21 @@ func runCase(c Case) lib.Result {
 		panic(err)
 	}
 	defer func() { rb.Close(); rb.Unlink() }()
+	if c.Base != 0 {
+		// bufferDescription: magic u32, version u32, writePointer u64 (offset 8), readPointer u64 (offset 16)
+		f, err := os.OpenFile("/dev/shm/"+descName, os.O_RDWR, 0)
+		if err != nil {
+			panic(err)
+		}
+		var b [16]byte
+		binary.LittleEndian.PutUint64(b[0:], c.Base)
+		binary.LittleEndian.PutUint64(b[8:], c.Base)
+		if _, err := f.WriteAt(b[:], 8); err != nil {
+			panic(err)
+		}
+		f.Close()
+	}
+	var acc []byte // accepted bytes (harness bookkeeping, used to render what ReadAllPackets consumed)
 	var dev *dastard.VerifAbacoRing
 	defer func() {
 		if dev != nil {
@@ -241,6 +271,26 @@ func runCase(c Case) lib.Result {
 				}
 			}()
 			switch o.Op {
+			case "RP":
+				// AbacoRing.ReadAllPackets: the bytes it takes from the ring are seen through Readable before/after;
+				// they are rendered as a ReadMultipleOf(8192) whose data are the next bytes of the accepted stream
+				if dev == nil {
+					var err error
+					if dev, err = dastard.VerifOpenAbacoRing(ringnum); err != nil {
+						ob = obsv{Ret: "err"}
+						break
+					}
+				}
+				before := rb.BytesReadable()
+				dev.ReadAllPackets() // pattern bytes are not valid packets: the parse error is irrelevant here
+				took := before - rb.BytesReadable()
+				if took < 0 || r+took > len(acc) {
+					took = 0
+				}
+				cp := append([]byte(nil), acc[r:r+took]...)
+				ob = obsv{Ret: "data", Data: cp, N: took}
+				r += took
+				tags["abaco-read-all-packets"] = true
 			case "ST":
 				// the device is opened by the first ST (start() = Open + discardStale), later ones call discardStale
 				var err error
@@ -269,6 +319,9 @@ func runCase(c Case) lib.Result {
 					tags["long-pattern-write"] = true
 				}
 				n, _ := rb.Write(d)
+				if c.Abaco && n >= 0 && n <= len(d) {
+					acc = append(acc, d[:n]...)
+				}
 				ob = obsv{Ret: "written", N: n}
 				if n < len(d) {
 					tags["write-truncated"] = true
@@ -353,6 +406,12 @@ func runCase(c Case) lib.Result {
 				term = fmt.Sprintf("W %s %s %s", lib.ZListInt(o.D), lib.Z(int64(ob.N)), rw)
 			case "WP":
 				term = fmt.Sprintf("W (pat %d %d) %s %s", o.A%251, o.N, lib.Z(int64(ob.N)), rw)
+			case "RP":
+				if ob.Ret == "err" {
+					term = fmt.Sprintf("RMe 8192 %s", rw)
+				} else {
+					term = fmt.Sprintf("RM 8192 %s %s", bytesTerm(ob.Data), rw)
+				}
 			case "ST":
 				if ob.Ret == "err" {
 					term = fmt.Sprintf("DSe 8192 %s", rw)
@@ -393,7 +452,12 @@ func runCase(c Case) lib.Result {
 			break
 		}
 	}
-	res.Term = fmt.Sprintf("mk %d %s", c.Cap, lib.List(terms))
+	if c.Base != 0 {
+		res.Term = fmt.Sprintf("mkb %d %d %s", c.Cap, c.Base, lib.List(terms))
+		tags["pointer-base"] = true
+	} else {
+		res.Term = fmt.Sprintf("mk %d %s", c.Cap, lib.List(terms))
+	}
 	res.Impl = impl
 	res.NonTrivial = wrapped && readAfterWrap
 	res.Heavy = c.Cap > 100000
